@@ -53,6 +53,11 @@ func newFabric(nb int, mode string, licVer int, storage string, surveyed bool) (
 
 // newFabricDir: dir != "" gives broker i the state directory dir/b<i>, kept when the fabric is closed (restarts).
 func newFabricDir(nb int, mode string, licVer int, storage string, surveyed bool, dir string) (*fabric, error) {
+	return newFabricWith(nb, mode, licVer, storage, surveyed, dir, false)
+}
+
+// newFabricWith: standalone = one broker whose configuration has no cluster section.
+func newFabricWith(nb int, mode string, licVer int, storage string, surveyed bool, dir string, standalone bool) (*fabric, error) {
 	f := &fabric{bs: map[string]*bk.Broker{}, nodes: map[string]*meshsender.Node{}, peers: map[string]mesh.PeerName{},
 		byPeer: map[string]string{}, net: meshsender.NewNet(), words: map[uint32]string{}, survey: surveyed}
 	base := atomic.AddInt64(&fabricSeq, 1)
@@ -60,6 +65,7 @@ func newFabricDir(nb int, mode string, licVer int, storage string, surveyed bool
 		n := fmt.Sprintf("b%d", i)
 		o := bk.Opts{Mode: mode, LicenseVer: licVer, Storage: storage,
 			NodeName: fmt.Sprintf("00:00:00:%02x:%02x:%02x", (base>>8)&0xff, base&0xff, i)}
+		o.NoCluster = standalone && nb == 1
 		if dir != "" {
 			o.Dir, o.KeepDir = fmt.Sprintf("%s/b%d", dir, i), true
 			os.MkdirAll(o.Dir, 0o755)
